@@ -80,7 +80,18 @@ fn bare_to_dim_type(
     let mut found: Option<(BuiltInStyle, &VariableInfo)> = None;
     let q = bare_name.qualify(ctx);
     for (built_in_style, variable_info) in ctx.names.find_name_or_shared_in_parent(bare_name) {
+        // A bare `REDIM A(..)` refers to the extended variable A or to the compact A of the
+        // default type (A and A! are one variable). Compact variables of the other suffixes
+        // are different variables and are allowed to co-exist.
+        let relevant = match built_in_style {
+            BuiltInStyle::Extended => true,
+            BuiltInStyle::Compact => {
+                let opt_q: Option<TypeQualifier> = variable_info.expression_type.opt_qualifier();
+                opt_q.expect("Should be qualified") == q
+            }
+        };
         match &variable_info.redim_info {
+            _ if !relevant => {}
             Some(r) => {
                 if r.dimension_count != array_dimensions.len() {
                     return Err(LintError::WrongNumberOfDimensions.at_pos(extra.pos));
